@@ -254,6 +254,15 @@ struct Got {
   void *h = nullptr;
 };
 static Got *GT;
+static int g_cb_rc = 0;
+static long g_intr_at = 0;
+static bool g_interrupted = false;
+static void on_recv_hook(int, long nth) {
+  if (g_intr_at > 0 && nth == g_intr_at) {
+    shim_events_interrupt();
+    g_interrupted = true;
+  }
+}
 static int http_cb(void *, const struct shim_resp *r) {
   aw::Pause pz;
   Got &g = *GT;
@@ -265,7 +274,7 @@ static int http_cb(void *, const struct shim_resp *r) {
   }
   if (!r) {
     g.is_null = true;
-    return 0;
+    return g_cb_rc;
   }
   g.status = r->status;
   for (size_t i = 0; i < r->nheaders; i++) g.hdrs.push_back({std::string(r->names[i]), std::string(r->values[i])});  // strlen under ASan
@@ -276,7 +285,7 @@ static int http_cb(void *, const struct shim_resp *r) {
     aw::Arm a;  // library-allocated block handed to us: free goes through the tracking allocator
     free(r->body);
   }
-  return 0;
+  return g_cb_rc;  // non-zero: the application stops its event loop from the callback (having dealt with the body as it must)
 }
 static int http_cancel_cb(void *) {
   Got &g = *GT;
@@ -296,6 +305,8 @@ struct Plan {
   int connect_kind = CB_OK_NOW;
   int64_t connect_delay = 0;
   std::vector<std::array<int64_t, 3>> outs;  // how the kernel takes the request bytes: {type, n, delay}
+  int cb_rc = 0;  // what the application's callback returns
+  long intr_at_recv = 0;  // a signal handler calls events_interrupt() during the n-th recv(); the application then cancels the request
   int want_fd = -1;  // descriptor number the connection's socket() call returns (-1: the kernel's next free one)
   bool hold = true;
 };
@@ -367,6 +378,10 @@ static void run_request(const Request &rq, Plan &p, Got &g) {
   ab.delay = p.connect_delay;
   K().addrs[3000] = ab;
   if (p.want_fd >= 0) K().socket_fd_script.push_back(p.want_fd);
+  g_cb_rc = p.cb_rc;
+  g_intr_at = p.intr_at_recv;
+  g_interrupted = false;
+  K().on_recv = on_recv_hook;
   int port = 3000;
   // expected request bytes
   std::string expect = rq.method + " " + rq.path + " HTTP/1.1\r\n";
@@ -400,8 +415,21 @@ static void run_request(const Request &rq, Plan &p, Got &g) {
       for (int i = 0; i < 200000 && !g.callbacks && !g.cancelled && !X->failed; i++) {
         K().stuck = false;
         int rc = shim_events_run();
-        if (rc != 0) {
+        if (rc != 0 && !(rc == p.cb_rc && g.callbacks == 1)) {
           X->fail("events-run-error", "events_run returned " + std::to_string(rc));
+          break;
+        }
+        if (rc != 0) X->cls.insert("callback-returned-non-zero");
+        if (g_interrupted && !g.callbacks && !g.cancelled) {
+          // the loop came back because of the interrupt request (SIGTERM handler): the application shuts down and cancels its request
+          g_interrupted = false;
+          g_intr_at = 0;
+          if (g.timer) {  // the application's own "give up at time t" timer is no longer needed
+            shim_timer_cancel(g.timer);
+            g.timer = nullptr;
+          }
+          http_cancel_cb(nullptr);
+          X->cls.insert("cancel-after-interrupt-from-signal-handler");
           break;
         }
         if (K().stuck) {
@@ -487,6 +515,10 @@ static void parse_common(const Case &c, Plan &p, size_t bodylen) {
     } else if (op.k == "out" && p.outs.size() < 40) {
       static const int T[] = {OUT_ACCEPT, OUT_ACCEPT, OUT_EAGAIN, OUT_EINTR, OUT_BLOCK, OUT_ERR};  // index 5 (the connection breaks while the request is being sent) is only generated for C08
       p.outs.push_back({T[(size_t)(((A(0) % 6) + 6) % 6)], std::min<int64_t>(std::max<int64_t>(A(1), 1), 100000), std::min<int64_t>(std::max<int64_t>(A(2), 0), 2000000)});
+    } else if (op.k == "intr") {
+      p.intr_at_recv = std::max<int64_t>(1, std::min<int64_t>(A(0), 100000));
+    } else if (op.k == "cbrc") {
+      p.cb_rc = (int)std::max<int64_t>(-100, std::min<int64_t>(A(0), 100));
     } else if (op.k == "fd") {
       static const int FDS[] = {0, 1, 2, 3, 7, 39, 255, 256, 1023, 1024, 5000};
       p.want_fd = FDS[(size_t)(((A(0) % 11) + 11) % 11)];
@@ -668,6 +700,7 @@ static void gen_response_ops(Case &c, int tier, bool hostile) {
   c.push_back(Op("end", {*rc::gen::weightedElement<int>({{3, 0}, {2, 1}, {hostile ? 1 : 0, 2}})}));
   c.push_back(Op("conn", {*range<int>(0, 1), *rc::gen::elementOf(std::vector<int64_t>{0, 1, 1000, 30000})}));
   if (*range<int>(0, 4) == 0) c.push_back(Op("fd", {*range<int>(0, 10)}));
+  if (*range<int>(0, 5) == 0) c.push_back(Op("cbrc", {*rc::gen::elementOf(std::vector<int64_t>{1, 7, -1, -3})}));
   if (*range<int>(0, 2) == 0) {  // the kernel takes the request in pieces
     int no = *range<int>(1, 8);
     for (int i = 0; i < no; i++)
@@ -867,6 +900,7 @@ static rc::Gen<Case> gen_c08(int tier) {
       c.push_back(Op("mut", {kind, *rc::gen::arbitrary<int>() & 0x7fffffff, arg}));
     }
     if (*range<int>(0, 9) == 0) c.push_back(Op("cancel", {*rc::gen::elementOf(std::vector<int64_t>{0, 1, 1000, 30000, 2000000})}));
+    if (*range<int>(0, 5) == 0) c.push_back(Op("intr", {*rc::gen::weightedOneOf<int64_t>({{4, range<int64_t>(1, 6)}, {2, range<int64_t>(6, 60)}, {1, range<int64_t>(60, 3000)}})}));
     if (*range<int>(0, 20) == 0) {
       // the connection attempt fails, later or at once; cancelling at once then meets a failure that is already queued for delivery
       c.push_back(Op("connfail", {*range<int>(0, 1)}));
